@@ -4,7 +4,7 @@ PROP = dict(
     level_text='Every (key type x verifying role x callback behaviour x credential defect) combination is run under TLS 1.1, 1.2, 1.3 and DTLS 1.2 and the verifier outcome is compared with a model (complete iff no defect, or the callback accepted that failure) and across versions; callback alert value and anon status are checked. The matrix is small, so the quick tier covers it many times over.',
     level_note='Credential defects are chain-validation failures (expired, not yet valid, wrong name, unknown CA, corrupted signature, intermediate without CA flag / keyCertSign, depth exceeded) presented by the in-process OpenSSL endpoint of C10 (which sends any chain it is given); proof-of-possession defects (wrong-key CertificateVerify / ServerKeyExchange signatures) need the scripted peer and are checked by the c04_pop targets when present.',
     technique='property-based testing over a finite configuration matrix with a reference authentication model and a cross-version metamorphic relation',
-    rule='auth_gate: case = (RSA|EC, client or server verifies, callback in {none, strict, permissive, anon, picky}, defect in 10 classes) x 4 protocol versions; non-trivial = a defect is present; distinct by the tuple. resume_history: case = (options of a first client-authenticated connection; changed or unchanged options + defective identity of a second connection presenting the first one\'s session id/ticket); non-trivial = second connection presents the handle with a defective identity',
+    rule='auth_gate: case = (RSA|EC, client or server verifies, callback in {none, strict, permissive, anon, picky}, defect in 19 classes incl. revocation, critical EKU, verifier without trust anchors vs. good / self-signed / expired self-signed peers) x 4 protocol versions; non-trivial = a defect is present; distinct by the tuple. resume_history: case = (options of a first client-authenticated connection; changed or unchanged options + defective identity of a second connection presenting the first one\'s session id/ticket; in a quarter of the cases the first connection is made WITHOUT client authentication (a listener of the same process that does not ask for certificates) and must then never be resumed by the connection that demands it); non-trivial = second connection presents the handle with a defective identity',
     assumptions=['pinned clock 2026-09-21 for validity checks'],
     targets=[dict(name='c04_auth_gate', src=['props/C04/auth_gate.cc', 'harness/wraps.c', 'harness/c10_ossl_peer.cc'], libs=['-lssl', '-lcrypto'], wraps=WRAPS, env={'VERIF_DIR': '/verif'},
                   quick=dict(cases=640, secs=90), thorough=dict(cases=20000, secs=900)),
